@@ -13,6 +13,7 @@ correspondence: inside Coq - repr text in the grammar, model cleanup (direct and
                the strings; the strtod-by-value hypothesis on sampled (m, e, k).
 """
 import math
+import re
 import struct
 import unicodedata
 from fractions import Fraction
@@ -21,6 +22,7 @@ from . import core
 from .core import cstr, cZ, cN, cnat, cbool, clist, copt, cflt  # noqa: F401
 
 PID = 'C13'
+HUGE_EXP = re.compile(r'[eE][+-]?[\d_]{5,}')
 TRUSTED = [
     'Coq 8.16.1 kernel + coqc; vm_compute for the regex pins/samples and for running the model (no native_compute)',
     'Print Assumptions of every C13 theorem: Closed under the global context (no axioms); C13_roundtrip* carry CPython\'s contract as '
@@ -340,10 +342,11 @@ def run(tier):
 
     # ---- correspondence inside Coq
     corr_n = 0
+    n_skipped = 0
     if model_ok:
         terms, what = [], []
         pick = list(range(nd))
-        budget = 16000 if big else 2200
+        budget = 12000 if big else 1000
         if len(pick) > budget:
             keep = [i for i in pick if doubles[i][0] in ('corpus',)]
             rest = [i for i in pick if doubles[i][0] != 'corpus']
@@ -361,11 +364,14 @@ def run(tier):
             terms.append(t)
             what.append({'double': x.hex(), 'repr': rp, 'value_string': vs})
         tpick = list(range(len(texts)))
-        tb = 8000 if big else 1500
+        tb = 6000 if big else 800
         if len(tpick) > tb:
             tpick = [i for i in tpick if texts[i][0] == 'nearmiss'] + sorted(r.sample([i for i in tpick if texts[i][0] != 'nearmiss'], tb))
         for i in tpick:
             (tag, t), out = texts[i], res[nd + ni + i]
+            if HUGE_EXP.search(t):
+                n_skipped += 1      # 10^(10^5...) is not computable exactly inside Coq; the direct oracle still covers these texts
+                continue
             if len(t) > 200 or 'vpn' not in out or 'vpi' not in out or isinstance(out['vpn'], dict) or isinstance(out['vpi'], dict):
                 continue
             vf = out['vpn']
@@ -410,7 +416,7 @@ def run(tier):
         'roundtrips_checked': n_roundtrips, 'integral_positional': n_integral, 'exponent_form': n_exp,
         'integral_in_exponent_form': n_exp_integral, 'integral_in_exponent_form_samples': exp_integral_samples,
         'strings_that_are_numbers': n_num, 'strings_that_are_not': n_null,
-        'correspondence_cases': corr_n,
+        'correspondence_cases': corr_n, 'correspondence_skipped_huge_exponent': n_skipped,
         'samples': [{'x': doubles[i][1].hex(), 'impl': res[i]} for i in (0, 70, 1500, nd - 1)],
     }
     return chk.finish(TRUSTED)
